@@ -443,6 +443,72 @@ def animation_symbolic_ints(version: bool, prio: int, loop: int, jprio: int) -> 
     return b.base_priority == prio and b.loop == loop and [j.priority for j in b.joints.values()] == [jprio]
 
 
+# ------------------------------------------------------------------------------------------------ mesh segment trees
+import hippolyzer.lib.base.mesh as mesh_mod  # noqa: E402
+from copy import deepcopy  # noqa: E402
+
+
+def _mesh_dump(m, **kw):
+    w = se.BufferWriter("!")
+    w.write(mesh_mod.LLMeshSerializer(**kw), m)
+    return w.copy_buffer()
+
+
+def _mesh_load(data, **kw):
+    return se.BufferReader("!", data).read(mesh_mod.LLMeshSerializer(**kw))
+
+
+_MESH_BASE = []
+
+
+def mesh_base():
+    if not _MESH_BASE:
+        # one trip through the codec puts the triangle's coordinates on the U16 quantisation grid (C10's subject)
+        _MESH_BASE.append(_mesh_load(_mesh_dump(mesh_mod.MeshAsset.make_triangle())))
+    return deepcopy(_MESH_BASE[0])
+
+
+LOD_NAMES = ["lowest_lod", "low_lod", "medium_lod"]
+
+
+@harness(pre=["(0 <= l0) & (l0 <= 3) & (0 <= l1) & (l1 <= 3) & (0 <= l2) & (l2 <= 3)"], post="_", timeout=600, covers=COVERS + (
+         _B + "mesh:LLMeshSerializer.serialize", _B + "mesh:LLMeshSerializer.deserialize", _B + "mesh:SegmentSerializer.serialize"),
+         note="mesh assets, segment trees: the library's triangle (high LOD, physics mesh, convex hull) plus each of lowest / low / "
+              "medium LOD absent, populated, 'NoGeometry' or present-but-empty, skin and havok segments absent or empty, raw "
+              "segment bytes kept or not (all solver-chosen; zlib / numpy / binary LLSD are C, so the codec runs on the chosen "
+              "tree outside the tracer): parse(serialise(mesh)) has equal segments and a second pass is byte-stable")
+def mesh_segment_trees(l0: int, l1: int, l2: int, skin: bool, havok: bool, raw: bool) -> bool:
+    sel = [small(l0, 0, 3), small(l1, 0, 3), small(l2, 0, 3)]
+    skin, havok, raw = (True if skin else False), (True if havok else False), (True if raw else False)
+
+    def go():
+        m = mesh_base()
+        lod = m.segments["high_lod"]
+        for name, st in zip(LOD_NAMES, sel):
+            if st:
+                m.header[name] = {"offset": 0, "size": 0}
+                m.segments[name] = [deepcopy(lod), [{"NoGeometry": True}], []][st - 1] if st != 1 else deepcopy(lod)
+        if skin:
+            m.header["skin"] = {"offset": 0, "size": 0}
+            m.segments["skin"] = {}
+        if havok:
+            m.header["physics_havok"] = {"offset": 0, "size": 0}
+            m.segments["physics_havok"] = {}
+        data = _mesh_dump(m)
+        back = _mesh_load(data, include_raw_segments=raw)
+        if back.segments != m.segments or set(back.header) != set(m.header):
+            return False
+        if raw:
+            # dropping the parsed form of a segment falls back to its raw bytes
+            back2 = deepcopy(back)
+            back2.segments.pop("high_lod")
+            again = _mesh_load(_mesh_dump(back2, include_raw_segments=True))
+            if again.segments["high_lod"] != m.segments["high_lod"]:
+                return False
+        return bytes(_mesh_dump(back)) == bytes(data)
+    return _untraced(go)
+
+
 def kf_ensemble_name(which, i) -> bool:
     """known finding: FolderType.ENSEMBLE_START and ENSEMBLE_END share the legacy name 'ensemble' (as in the reference viewer)"""
     if which != 2:
@@ -464,8 +530,8 @@ EVIDENCE = {
     "bounds": "transfers: payload <= 8 bytes with chunk size 4 (3 chunks) and boundary sizes with the real chunk size, schedules of "
               "5 (xfer) / 4 (transfer) deliveries; inventory: one node per model, catalogue values; animations: <= 2 joints x 2+2 "
               "keyframes x 1 constraint",
-    "outside": "mesh assets (zlib + numpy + binary LLSD are C code: nothing symbolic would survive; the quantised arrays are C10's "
-               "subject); wearables; names containing '|', tabs, line breaks or leading whitespace (not representable in the "
+    "outside": "mesh geometry values (zlib + numpy + binary LLSD are C code: nothing symbolic would survive; the quantised arrays "
+               "are C10's subject; only the segment-tree structure is explored); wearables; names containing '|', tabs, line breaks or leading whitespace (not representable in the "
                "line-oriented legacy format; the viewer sanitises them); multi-node models beyond one node; floats off the float32 "
                "catalogue; schedules that deliver a packet index beyond the end-marked one",
     "assumptions": ["integers rendered into the text form are realized by StringIO (C), so text-form integers come from boundary "
